@@ -61,6 +61,13 @@ func init() {
 			return st.Probes["failed-op-checked"] > 0 && st.Probes["reopen-compared"] > 3
 		})
 
+	Engines["C09"] = chainEngine("C09", &sim.ChainCfg{Model: true, Conserve: true},
+		func(tier string) *sim.GenParams {
+			return &sim.GenParams{Mix: sim.OpMix{"invoke": 12, "tx": 2, "kvtx": 2, "mine": 4, "deliver": 2, "walk": 1}, MaxSteps: steps(tier, 20, 36), MaxNodes: 2, Windows: []int{0}, MapOrders: true, SmallCache: true, NoTinyUtxo: true}
+		}, "", func(st *sim.RunStats) bool {
+			return st.Probes["commit-effect-checked"] > 0 && st.Probes["invoke-admitted"] > 1
+		})
+
 	Engines["C13"] = chainEngine("C13", &sim.ChainCfg{PoolOrder: true, Diff: true, DiffEveryN: 1},
 		func(tier string) *sim.GenParams {
 			return &sim.GenParams{Mix: sim.OpMix{"tx": 8, "kvtx": 8, "mine": 5, "deliver": 3, "clock": 1}, MaxSteps: steps(tier, 22, 40), MaxNodes: 2, Windows: []int{0}, MapOrders: true, SmallCache: true}
